@@ -64,6 +64,13 @@ def run(ctx):
             v = dict(base)
             v[key] = rng.uniform(lo, hi)
             sets.append(v)
+    # values at the calibration bounds, typed the way the control file and a hand-written parameter file type them:
+    # whole numbers without a decimal point (`theta_s: 1`, `b: 20`, `sd: 2`, `psi_s: -1` are ints after yaml.safe_load)
+    sets.append({"sd": 2, "theta_s": 1, "b": 20, "psi_s": -1})
+    sets.append(dict(PUBLISHED, theta_s=1))
+    sets.append(dict(PUBLISHED, b=rng.randint(1, 20), sd=rng.choice([1, 2])))
+    sets.append({"sd": rng.uniform(0.02, 2.0), "theta_s": 1, "b": rng.uniform(0.3, 20.0), "psi_s": rng.choice([-1, rng.uniform(-1.0, -0.01)])})
+    ctx.count("parameter_sets_with_whole_numbers_typed_as_ints", 4)
     zm = 0.5 * (np.linspace(-0.99, 1.01, 201) + np.linspace(-1, 1, 201))
     for p in sets:
         cdf = [float(v) for v in scipy.stats.norm.cdf(zm, loc=0, scale=p["sd"])]
